@@ -44,179 +44,188 @@ def run(chk):
     facts = PS.inv_facts()
     from .bounded_c01 import replay_measure
 
-    # ---------------------------------------------------------------- _calculate_signed_volume
-    fk = chk.function(MODC, "ConvexPolyhedron._calculate_signed_volume")
-
-    def run_sv():
-        o = PS.convex_polyhedron(shapes)
-        r = o._calculate_signed_volume()
-        return r, o._volume
-    for p in chk.explore(fk, run_sv, assumptions=facts):
-        r, vol = p.value
-        _cert(chk, "signed_volume:post", fk, p.pc, ex(r), PS.solid_moment(1), replay=replay_measure("volume"))
-        chk.prove_eq("signed_volume:caches_abs", fk, p.pc, ex(vol), sp.Abs(ex(r)))
-
-    # ---------------------------------------------------------------- triangle areas / surface area
-    fk = chk.function(MODC, "ConvexPolyhedron._find_triangle_array_area")
     Nv = PS.raw_normal(A, B, C)
     tri_area = sp.sqrt(PS.radicand(Nv)) / 2
-
-    def run_ta(sum_result):
-        o = PS.convex_polyhedron(shapes)
-        return o._find_triangle_array_area(o._vertices[o._simplices], sum_result=sum_result)
-    for p in chk.explore(fk, lambda: run_ta(False), assumptions=facts):
-        row = to_expr(p.value.inner[()])
-        chk.prove_eq("tri_area:row", fk, p.pc, row, tri_area)
-    for p in chk.explore(fk, lambda: run_ta(True), assumptions=facts):
-        chk.record("tri_area:sum", fk, "proved" if sigma.is_zero(ex(p.value) - sum_over(PS.K, tri_area)) else "refuted",
-                   "sigma-normal-form", model={}, replay=replay_measure("surface_area"))
-    fk = chk.function(MODC, "ConvexPolyhedron._calculate_surface_area")
-
-    def run_sa():
-        o = PS.convex_polyhedron(shapes)
-        r = o._calculate_surface_area()
-        return r, o._area
-    for p in chk.explore(fk, run_sa, assumptions=facts):
-        r, area = p.value
-        ok = sigma.is_zero(ex(r) - sum_over(PS.K, tri_area)) and sigma.is_zero(ex(area) - ex(r))
-        chk.record("surface_area:post", fk, "proved" if ok else "refuted", "sigma-normal-form", model={},
-                   replay=replay_measure("surface_area"))
-
-    # ---------------------------------------------------------------- getters return the cached fields (Inv)
-    for member, field, spec in (("volume", "_volume", PS.solid_moment(1)),
-                                ("surface_area", "_area", sum_over(PS.K, tri_area))):
-        fk = chk.function(MODC, f"ConvexPolyhedron.{member}[get]")
-
-        def run_g(member=member):
-            o = PS.convex_polyhedron(shapes)
-            return getattr(o, member)
-        for p in chk.explore(fk, run_g, assumptions=facts):
-            chk.record(f"{member}[get]:post", fk, "proved" if sigma.is_zero(ex(p.value) - spec) else "refuted",
-                       "sigma-normal-form", model={}, replay=replay_measure(member))
-    fk = chk.function(MODC, "ConvexPolyhedron.centroid[get]")
-    fkc = chk.function("coxeter.shapes.base_classes", "Shape.center[get]")
-    for member, fkk in (("centroid", fk), ("center", fkc)):
-        def run_c(member=member):
-            o = PS.convex_polyhedron(shapes)
-            return getattr(o, member)
-        for p in chk.explore(fkk, run_c, assumptions=facts):
-            for i in range(3):
-                spec = PS.solid_moment(COORD[i]) / PS.solid_moment(1)
-                chk.record(f"{member}[get]:post[{'xyz'[i]}]", fkk,
-                           "proved" if sigma.is_zero(ex(p.value[i]) - spec) else "refuted", "sigma-normal-form",
-                           model={}, replay=replay_measure("centroid"))
-
-    # ---------------------------------------------------------------- centroid from the surface (curl formula)
-    fk = chk.function(MODC, "ConvexPolyhedron._centroid_from_triangulated_surface")
-
-    def run_cs():
-        o = PS.convex_polyhedron(shapes)
-        o._centroid = None
-        o._centroid_from_triangulated_surface()
-        return o._centroid, o._volume
-    for p in chk.explore(fk, run_cs, assumptions=facts):
-        cen, vol = p.value
-        for i in range(3):
-            # centroid_i * volume  ==  M[x_i]      (volume is the cached M[1] by Inv)
-            _cert(chk, f"centroid:stokes[{'xyz'[i]}]", fk, p.pc, sigma.cancel_sums(ex(cen[i]) * ex(vol)),
-                  PS.solid_moment(COORD[i]), replay=replay_measure("centroid"))
-
-    # ---------------------------------------------------------------- inertia tensor about the centroid
-    fk = chk.function(MODC, "ConvexPolyhedron._compute_inertia_tensor")
     c = [sp.Symbol(f"c{i}", real=True) for i in range(3)]
-
-    def run_it():
-        o = PS.convex_polyhedron(shapes)
-        o._centroid = np.array([Sym(x) for x in c], dtype=object)     # any row-independent centre
-        return o._compute_inertia_tensor()
     r2 = X**2 + Y**2 + Z**2
-    for p in chk.explore(fk, run_it, assumptions=facts):
-        it = p.value
-        for i in range(3):
-            for j in range(i, 3):
-                h = (r2 if i == j else 0) - COORD[i] * COORD[j]
-                spec = PS.solid_moment(h, shift=c)
-                _cert(chk, f"inertia:stokes[{'xyz'[i]}{'xyz'[j]}]", fk, p.pc, ex(it[i, j]), spec,
-                      replay=replay_measure("inertia_tensor"))
-                if i != j:
-                    chk.prove_eq(f"inertia:symmetric[{'xyz'[i]}{'xyz'[j]}]", fk, p.pc, ex(it[i, j]), ex(it[j, i]))
 
-    # ---------------------------------------------------------------- translate_inertia_tensor (parallel axis)
-    fk = chk.function("coxeter.shapes.utils", "translate_inertia_tensor")
-    utils = ld.load("coxeter.shapes.utils")
-    d = [sp.Symbol(f"d{i}", real=True) for i in range(3)]
-    J = [[sp.Symbol(f"J{min(i, j)}{max(i, j)}", real=True) for j in range(3)] for i in range(3)]
-    m = sp.Symbol("m", real=True)
+    def sec_0():
+        fk = chk.function(MODC, "ConvexPolyhedron._calculate_signed_volume")
 
-    def run_tr():
-        disp = np.array([Sym(x) for x in d], dtype=object)
-        ten = np.array([[Sym(J[i][j]) for j in range(3)] for i in range(3)], dtype=object)
-        return utils.translate_inertia_tensor(disp, ten, Sym(m))
-    for p in chk.explore(fk, run_tr):
-        out = p.value
-        dd = sum(x * x for x in d)
-        for i in range(3):
-            for j in range(3):
-                spec = J[i][j] + m * ((dd if i == j else 0) - d[i] * d[j])
-                chk.prove_eq(f"translate_inertia_tensor:post[{i}{j}]", fk, p.pc, ex(out[i, j]), spec)
+        def run_sv():
+            o = PS.convex_polyhedron(shapes)
+            r = o._calculate_signed_volume()
+            return r, o._volume
+        for p in chk.explore(fk, run_sv, assumptions=facts):
+            r, vol = p.value
+            _cert(chk, "signed_volume:post", fk, p.pc, ex(r), PS.solid_moment(1), replay=replay_measure("volume"))
+            chk.prove_eq("signed_volume:caches_abs", fk, p.pc, ex(vol), sp.Abs(ex(r)))
+    chk.section("calculate_signed_volume", "coxeter.shapes.convex_polyhedron::ConvexPolyhedron", sec_0)
 
-    # ---------------------------------------------------------------- inertia_tensor about the origin
-    # callee contracts: _compute_inertia_tensor returns M[h_ij(. - c)] with c = self.centroid;
-    # Inv: centroid_i = M[x_i]/M[1], volume = M[1].  All in abstract moment symbols m_pqr.
-    fk = chk.function(MODC, "ConvexPolyhedron.inertia_tensor[get]")
-    mom = {}
+    def sec_1():
+        fk = chk.function(MODC, "ConvexPolyhedron._find_triangle_array_area")
 
-    def msym(pw):
-        return mom.setdefault(pw, sp.Symbol("m_%d%d%d" % pw, real=True))
+        def run_ta(sum_result):
+            o = PS.convex_polyhedron(shapes)
+            return o._find_triangle_array_area(o._vertices[o._simplices], sum_result=sum_result)
+        for p in chk.explore(fk, lambda: run_ta(False), assumptions=facts):
+            row = to_expr(p.value.inner[()])
+            chk.prove_eq("tri_area:row", fk, p.pc, row, tri_area)
+        for p in chk.explore(fk, lambda: run_ta(True), assumptions=facts):
+            chk.record("tri_area:sum", fk, "proved" if sigma.is_zero(ex(p.value) - sum_over(PS.K, tri_area)) else "refuted",
+                       "sigma-normal-form", model={}, replay=replay_measure("surface_area"))
+        fk = chk.function(MODC, "ConvexPolyhedron._calculate_surface_area")
 
-    def abstract(h):
-        """M[h] as a linear combination of moment symbols (S2)"""
-        poly = sp.Poly(sp.expand(h), X, Y, Z)
-        return sum(coef * msym(tuple(mon)) for mon, coef in poly.terms())
-    m0 = msym((0, 0, 0))
-    cen = [msym(tuple(1 if k == i else 0 for k in range(3))) / m0 for i in range(3)]
+        def run_sa():
+            o = PS.convex_polyhedron(shapes)
+            r = o._calculate_surface_area()
+            return r, o._area
+        for p in chk.explore(fk, run_sa, assumptions=facts):
+            r, area = p.value
+            ok = sigma.is_zero(ex(r) - sum_over(PS.K, tri_area)) and sigma.is_zero(ex(area) - ex(r))
+            chk.record("surface_area:post", fk, "proved" if ok else "refuted", "sigma-normal-form", model={},
+                       replay=replay_measure("surface_area"))
+    chk.section("triangle_areas_surface_area", "coxeter.shapes.convex_polyhedron::ConvexPolyhedron", sec_1)
 
-    def run_full():
-        o = PS.convex_polyhedron(shapes)
-        o._volume = Sym(m0)
-        o._centroid = np.array([wrap(x) for x in cen], dtype=object)
+    def sec_2():
+        for member, field, spec in (("volume", "_volume", PS.solid_moment(1)),
+                                    ("surface_area", "_area", sum_over(PS.K, tri_area))):
+            fk = chk.function(MODC, f"ConvexPolyhedron.{member}[get]")
 
-        def stub(centered=True):
-            out = np.empty((3, 3), dtype=object)
+            def run_g(member=member):
+                o = PS.convex_polyhedron(shapes)
+                return getattr(o, member)
+            for p in chk.explore(fk, run_g, assumptions=facts):
+                chk.record(f"{member}[get]:post", fk, "proved" if sigma.is_zero(ex(p.value) - spec) else "refuted",
+                           "sigma-normal-form", model={}, replay=replay_measure(member))
+        fk = chk.function(MODC, "ConvexPolyhedron.centroid[get]")
+        fkc = chk.function("coxeter.shapes.base_classes", "Shape.center[get]")
+        for member, fkk in (("centroid", fk), ("center", fkc)):
+            def run_c(member=member):
+                o = PS.convex_polyhedron(shapes)
+                return getattr(o, member)
+            for p in chk.explore(fkk, run_c, assumptions=facts):
+                for i in range(3):
+                    spec = PS.solid_moment(COORD[i]) / PS.solid_moment(1)
+                    chk.record(f"{member}[get]:post[{'xyz'[i]}]", fkk,
+                               "proved" if sigma.is_zero(ex(p.value[i]) - spec) else "refuted", "sigma-normal-form",
+                               model={}, replay=replay_measure("centroid"))
+    chk.section("getters_return_the_cached_fields_inv", "coxeter.shapes.convex_polyhedron::ConvexPolyhedron", sec_2)
+
+    def sec_3():
+        fk = chk.function(MODC, "ConvexPolyhedron._centroid_from_triangulated_surface")
+
+        def run_cs():
+            o = PS.convex_polyhedron(shapes)
+            o._centroid = None
+            o._centroid_from_triangulated_surface()
+            return o._centroid, o._volume
+        for p in chk.explore(fk, run_cs, assumptions=facts):
+            cen, vol = p.value
+            for i in range(3):
+                # centroid_i * volume  ==  M[x_i]      (volume is the cached M[1] by Inv)
+                _cert(chk, f"centroid:stokes[{'xyz'[i]}]", fk, p.pc, sigma.cancel_sums(ex(cen[i]) * ex(vol)),
+                      PS.solid_moment(COORD[i]), replay=replay_measure("centroid"))
+    chk.section("centroid_from_the_surface_curl_formula", "coxeter.shapes.convex_polyhedron::ConvexPolyhedron", sec_3)
+
+    def sec_4():
+        fk = chk.function(MODC, "ConvexPolyhedron._compute_inertia_tensor")
+
+        def run_it():
+            o = PS.convex_polyhedron(shapes)
+            o._centroid = np.array([Sym(x) for x in c], dtype=object)     # any row-independent centre
+            return o._compute_inertia_tensor()
+        for p in chk.explore(fk, run_it, assumptions=facts):
+            it = p.value
+            for i in range(3):
+                for j in range(i, 3):
+                    h = (r2 if i == j else 0) - COORD[i] * COORD[j]
+                    spec = PS.solid_moment(h, shift=c)
+                    _cert(chk, f"inertia:stokes[{'xyz'[i]}{'xyz'[j]}]", fk, p.pc, ex(it[i, j]), spec,
+                          replay=replay_measure("inertia_tensor"))
+                    if i != j:
+                        chk.prove_eq(f"inertia:symmetric[{'xyz'[i]}{'xyz'[j]}]", fk, p.pc, ex(it[i, j]), ex(it[j, i]))
+    chk.section("inertia_tensor_about_the_centroid", "coxeter.shapes.convex_polyhedron::ConvexPolyhedron", sec_4)
+
+    def sec_5():
+        fk = chk.function("coxeter.shapes.utils", "translate_inertia_tensor")
+        utils = ld.load("coxeter.shapes.utils")
+        d = [sp.Symbol(f"d{i}", real=True) for i in range(3)]
+        J = [[sp.Symbol(f"J{min(i, j)}{max(i, j)}", real=True) for j in range(3)] for i in range(3)]
+        m = sp.Symbol("m", real=True)
+
+        def run_tr():
+            disp = np.array([Sym(x) for x in d], dtype=object)
+            ten = np.array([[Sym(J[i][j]) for j in range(3)] for i in range(3)], dtype=object)
+            return utils.translate_inertia_tensor(disp, ten, Sym(m))
+        for p in chk.explore(fk, run_tr):
+            out = p.value
+            dd = sum(x * x for x in d)
+            for i in range(3):
+                for j in range(3):
+                    spec = J[i][j] + m * ((dd if i == j else 0) - d[i] * d[j])
+                    chk.prove_eq(f"translate_inertia_tensor:post[{i}{j}]", fk, p.pc, ex(out[i, j]), spec)
+    chk.section("translate_inertia_tensor_parallel_axis", "coxeter.shapes.convex_polyhedron::ConvexPolyhedron", sec_5)
+
+    def sec_6():
+        # callee contracts: _compute_inertia_tensor returns M[h_ij(. - c)] with c = self.centroid;
+        # Inv: centroid_i = M[x_i]/M[1], volume = M[1].  All in abstract moment symbols m_pqr.
+        fk = chk.function(MODC, "ConvexPolyhedron.inertia_tensor[get]")
+        mom = {}
+
+        def msym(pw):
+            return mom.setdefault(pw, sp.Symbol("m_%d%d%d" % pw, real=True))
+
+        def abstract(h):
+            """M[h] as a linear combination of moment symbols (S2)"""
+            poly = sp.Poly(sp.expand(h), X, Y, Z)
+            return sum(coef * msym(tuple(mon)) for mon, coef in poly.terms())
+        m0 = msym((0, 0, 0))
+        cen = [msym(tuple(1 if k == i else 0 for k in range(3))) / m0 for i in range(3)]
+
+        def run_full():
+            o = PS.convex_polyhedron(shapes)
+            o._volume = Sym(m0)
+            o._centroid = np.array([wrap(x) for x in cen], dtype=object)
+
+            def stub(centered=True):
+                out = np.empty((3, 3), dtype=object)
+                for i in range(3):
+                    for j in range(3):
+                        h = (r2 if i == j else 0) - COORD[i] * COORD[j]
+                        hs = h.subs({X: X - cen[0], Y: Y - cen[1], Z: Z - cen[2]}, simultaneous=True)
+                        out[i, j] = wrap(abstract(hs))
+                return out
+            o._compute_inertia_tensor = stub
+            return o.inertia_tensor
+        for p in chk.explore(fk, run_full, assumptions=[sp.Gt(m0, 0)]):
+            out = p.value
             for i in range(3):
                 for j in range(3):
                     h = (r2 if i == j else 0) - COORD[i] * COORD[j]
-                    hs = h.subs({X: X - cen[0], Y: Y - cen[1], Z: Z - cen[2]}, simultaneous=True)
-                    out[i, j] = wrap(abstract(hs))
-            return out
-        o._compute_inertia_tensor = stub
-        return o.inertia_tensor
-    for p in chk.explore(fk, run_full, assumptions=[sp.Gt(m0, 0)]):
-        out = p.value
-        for i in range(3):
+                    chk.prove_eq(f"inertia_tensor:post[{i}{j}]", fk, p.pc, ex(out[i, j]), abstract(h),
+                                 replay=replay_measure("inertia_tensor"))
+    chk.section("inertia_tensor_about_the_origin", "coxeter.shapes.convex_polyhedron::ConvexPolyhedron", sec_6)
+
+    def sec_7():
+        fk = chk.function(MODC, "ConvexPolyhedron._find_simplex_equations")
+
+        def run_se():
+            o = PS.convex_polyhedron(shapes)
+            o._simplex_equations = None
+            o._find_simplex_equations()
+            return o._simplex_equations
+        for p in chk.explore(fk, run_se, assumptions=facts):
+            E = [to_expr(p.value.inner[j]) for j in range(4)]
+            rad = PS.radicand(Nv)
+            nrm = sp.sqrt(rad)
             for j in range(3):
-                h = (r2 if i == j else 0) - COORD[i] * COORD[j]
-                chk.prove_eq(f"inertia_tensor:post[{i}{j}]", fk, p.pc, ex(out[i, j]), abstract(h),
-                             replay=replay_measure("inertia_tensor"))
-
-    # ---------------------------------------------------------------- plane equations of the simplices
-    fk = chk.function(MODC, "ConvexPolyhedron._find_simplex_equations")
-
-    def run_se():
-        o = PS.convex_polyhedron(shapes)
-        o._simplex_equations = None
-        o._find_simplex_equations()
-        return o._simplex_equations
-    for p in chk.explore(fk, run_se, assumptions=facts):
-        E = [to_expr(p.value.inner[j]) for j in range(4)]
-        rad = PS.radicand(Nv)
-        nrm = sp.sqrt(rad)
-        for j in range(3):
-            chk.prove_eq(f"simplex_equations:normal[{j}]", fk, p.pc, E[j] * nrm, Nv[j])
-        chk.prove_eq("simplex_equations:offset", fk, p.pc, E[3] * nrm, -PS.dot(Nv, A))
-        chk.prove_eq("simplex_equations:unit", fk, p.pc, E[0]**2 + E[1]**2 + E[2]**2, 1)
-        for nm, P in (("a", A), ("b", B), ("c", C)):
-            chk.prove_eq(f"simplex_equations:contains[{nm}]", fk, p.pc, PS.dot(E[:3], P) + E[3], 0)
+                chk.prove_eq(f"simplex_equations:normal[{j}]", fk, p.pc, E[j] * nrm, Nv[j])
+            chk.prove_eq("simplex_equations:offset", fk, p.pc, E[3] * nrm, -PS.dot(Nv, A))
+            chk.prove_eq("simplex_equations:unit", fk, p.pc, E[0]**2 + E[1]**2 + E[2]**2, 1)
+            for nm, P in (("a", A), ("b", B), ("c", C)):
+                chk.prove_eq(f"simplex_equations:contains[{nm}]", fk, p.pc, PS.dot(E[:3], P) + E[3], 0)
+    chk.section("plane_equations_of_the_simplices", "coxeter.shapes.convex_polyhedron::ConvexPolyhedron", sec_7)
 
     # ---------------------------------------------------------------- canaries
     fk = chk.function(MODC, "ConvexPolyhedron._centroid_from_triangulated_surface")
